@@ -402,6 +402,7 @@ def run(ctx):
         outs += sets
     ctx.cov["mc"] = dict(mcstat, properties=["LockInv", "NoStuck", "ExclusiveSerialises", "OnlyAccessesWrite"])
     ctx.cov["exhaustive"] = True
+    ctx.cov["exhaustive_scope"] = "every order of accesses each generated program allows (TLC); the programs themselves are directed + sampled"
     ctx.cov["outcomes_total"] = sum(len(o) for o in outs)
     ctx.cov["programs_with_several_outcomes"] = sum(1 for o in outs if len(o) > 1)
     if any(len(o) == 0 for o in outs):
